@@ -579,10 +579,10 @@ static void run_case(Rng&, Ctx& c)
 
   std::string T, other;
   long fileKey = (long)ik * 1000 + inst;
-  // instance 0 of every kind is CANONICAL: generated from a fixed number, not from VERIF_SEED, so that the enumerated
-  // part of the quick tier (prefixes, tokens, counts, lines, file-level) visits the same mutants whatever the seed and
-  // its violation keys are stable; VERIF_SEED drives the blind component, and the further instances of the thorough tier
-  const uint64_t genSeed = (inst == 0) ? 20261002ULL : c.seed;
+  // the seed files are FIXED: generated from constants, not from VERIF_SEED, and so is the blind component below. The
+  // mutant set of a tier is therefore the same in every run; VERIF_SEED is only recorded. (A fault enumeration whose keys
+  // moved with the seed could never be matched against a list of known findings.)
+  const uint64_t genSeed = 20261002ULL + 7919ULL * (uint64_t)inst;
   if (!buildSeed(kind, genSeed, fileKey, th, T)) { c.skip("no-seed-file:" + kind.name); return; }
   // a second seed file (another kind) for the splices
   {
@@ -597,7 +597,7 @@ static void run_case(Rng&, Ctx& c)
 
   std::vector<Mutant> muts;
   bool prefixComplete = true;
-  uint64_t bs = c.seed * 1315423911ULL + (uint64_t)fileKey;
+  uint64_t bs = 0x9e3779b97f4a7c15ULL * 1315423911ULL + (uint64_t)fileKey;
   enumerate(T, kind, th, splitmix(bs), other, muts, prefixComplete);
   c.probe(prefixComplete ? "prefix-enumeration-complete" : "prefix-enumeration-sampled");
   c.putn("mutants_of_file", (double)muts.size());
@@ -646,14 +646,30 @@ static void run_case(Rng&, Ctx& c)
     const Mutant& mu = muts[m];
     writeFile("m.bin", mu.bytes);
     ChildOutcome o;
+    // Time-outs. Only CPU TIME decides (it does not depend on the machine load): a first limit of 5 s keeps the run
+    // cheap; a mutant that exhausts it is run again with 20 s. Exhausting 20 s of CPU on a file of a few hundred KiB at
+    // most is a hang; finishing between 5 and 20 s is slow but not a hang (the second outcome is the one classified).
+    // The wall-clock watchdog (240 s) only protects the run: a mutant it had to kill twice is a counted skip.
+    bool watchdogSkip = false;
     for (int attempt = 0; attempt < 2; attempt++)
     {
       o = runChild([&](int wfd) { loadInChild(kind, "m.bin", wfd); }, 5., 240., "child.err");
       if (o.kind != ChildOutcome::TIMEOUT) break;
-      // 5 s of CPU TIME on a file of at most a few hundred KiB is a verdict that does not depend on the machine load;
-      // only a wall-clock (watchdog) time-out is re-run once before a hang is declared
-      if (o.cpuLimitHit) break;
+      if (o.cpuLimitHit)
+      {
+        c.probe("cpu-5s-exhausted");
+        o = runChild([&](int wfd) { loadInChild(kind, "m.bin", wfd); }, 20., 600., "child.err");
+        if (o.kind == ChildOutcome::TIMEOUT && !o.cpuLimitHit) watchdogSkip = true;
+        else if (o.kind != ChildOutcome::TIMEOUT) c.probe("slow-5-to-20s");
+        break;
+      }
       c.probe("timeout-rerun");
+      if (attempt == 1) watchdogSkip = true;
+    }
+    if (watchdogSkip)
+    {
+      c.skip("watchdog:wall-clock-only");
+      continue;
     }
     nrun++;
     c.probe("children");
@@ -676,7 +692,7 @@ static void run_case(Rng&, Ctx& c)
     if (o.kind == ChildOutcome::TIMEOUT)
     {
       c.probe("timed-out");
-      L.fail("loader-survives", base + "hang", "no answer within 5 s CPU (or 240 s wall, twice) | " + det);
+      L.fail("loader-survives", base + "hang", "20 s of CPU time exhausted (after a first run that exhausted 5 s) | " + det);
       continue;
     }
     if (o.kind == ChildOutcome::DIED)
@@ -699,8 +715,9 @@ static void run_case(Rng&, Ctx& c)
     if (xp != std::string::npos)
     {
       c.probe("exception");
+      // one key per reader: which exception (bad_alloc / length_error for a count, a my_throw message...) is in the detail
       std::string what = pl.substr(xp + 2, pl.find('\n', xp) - xp - 2);
-      L.fail("loader-survives", base + (returned ? "returned-object:" : "") + what + ":escaped", det);
+      L.fail("loader-survives", base + (returned ? "returned-object:" : "") + "exception:escaped", "[" + what + "] " + det);
       continue;
     }
     L.pass("loader-survives");
